@@ -335,7 +335,12 @@ def handleSolve (toks : List String) : Option String :=
   match toks with
   | cmd :: rest =>
     match splitBar rest with
-    | [_, sett, [seq0], restrs, [sq], cons, objs, attrs, evals, efaults, allocs, heurs, tape, focus] => do
+    | [_, sett, seq0f, restrs, [sq], cons, objs, attrs, evals, efaults, allocs, heurs, tape, focus] => do
+      -- `seq0` alone, or `seq0 a b`: the problem was given `mutation_space.localized((a, b))` as its space
+      let (seq0, window) ← (match seq0f with
+        | [x] => some (x, (none : Option (Int × Int)))
+        | [x, a, b] => do pure (x, some (← int? a, ← int? b))
+        | _ => none)
       let sett ← parseSettings sett
       let rs ← restrictions? restrs
       let tables : TableSpec.Tables := {
@@ -348,6 +353,9 @@ def handleSolve (toks : List String) : Option String :=
       match Space.fromRestrictions (seqOf seq0) rs with
       | .error e => pure ("space:" ++ spaceErrStr e)
       | .ok sp =>
+        let sp := match window with
+          | some (a, b) => sp.localized a b
+          | none => sp
         let F : Frame Nat := { constraints := ← nats? cons, objectives := ← nats? objs, space := sp, seqBefore := seqOf sq }
         let s0 := seqOf sq
         let st : St Nat Float := { shared := { focus := focus }, tape := tape }
